@@ -681,8 +681,9 @@ def r05_5(prog, rep, rid='R05.5'):
             if n.kind == 'test' and isinstance(n.ast, ast.Compare) and \
                     len(n.ast.ops) == 1 and isinstance(n.ast.ops[0], ast.In) \
                     and unparse(n.ast.left) == 'state':
-                v = prog.fold(f.module, n.ast.comparators[0])
-                if v is not UNKNOWN and set(v) == {failed, canceled}:
+                v = prog.fold(f.module, n.ast.comparators[0], K)
+                if isinstance(v, (list, tuple, set, frozenset)) and \
+                        set(v) == {failed, canceled}:
                     tests.append(n)
         rep.check(len(tests) == 1, rid, f, '%s.advance special-cases exactly '
                   'FAILED and CANCELED' % K.name, construct='%s:test' % K.name,
@@ -867,16 +868,16 @@ def run(prog, rep, tier):
         'message delivery orders; liveness of the pipeline as a whole.')
     rep.assumptions = ['zmq queues deliver what is put into them',
                        'effect calls are atomic']
-    r05_1(prog, rep)
-    r05_2(prog, rep)
-    r05_3(prog, rep)
-    r05_4(prog, rep)
-    r05_4b(prog, rep)
-    r05_5(prog, rep)
-    r05_6(prog, rep)
+    rep.attempt(r05_1, prog, rep)
+    rep.attempt(r05_2, prog, rep)
+    rep.attempt(r05_3, prog, rep)
+    rep.attempt(r05_4, prog, rep)
+    rep.attempt(r05_4b, prog, rep)
+    rep.attempt(r05_5, prog, rep)
+    rep.attempt(r05_6, prog, rep)
     # exactly one final state when process exit and cancel coincide
     from .c07 import r07_2
-    r07_2(prog, rep, rid='R07.2')
+    rep.attempt(r07_2, prog, rep, rid='R07.2')
 
 
 # ------------------------------------------------------------------------------
